@@ -97,4 +97,337 @@ theorem kh_bigraded_aux (f : Feat) (ct : CType) (o : Opts) (lk : LinkClass) (r :
   rw [hb]
   simp [Bool.or_eq_true, Bool.and_eq_true, or_assoc]
 
+/-! ### cell texts: `readCell` inverts `rmodStr` -/
+
+def SymOK (sym : List Char) : Prop :=
+  (∃ c r, sym = c :: r ∧ c ≠ '(' ∧ c ≠ '0') ∧ '⊕' ∉ sym
+
+def TorOK (t : List Char) : Prop := '⊕' ∉ t
+
+theorem superDigit_ok : ∀ d, d < 10 → isSuper (superDigit d) = true ∧ unsuperDigit (superDigit d) = d ∧
+    superDigit d ≠ '⊕' := by decide
+
+theorem natDigits_lt (n : Nat) : ∀ d ∈ natDigits n, d < 10 := by
+  fun_induction natDigits n with
+  | case1 n h => intro d hd; simp at hd; omega
+  | case2 n h ih =>
+    intro d hd
+    simp at hd
+    rcases hd with hd | hd
+    · exact ih d hd
+    · omega
+
+theorem natDigits_ne_nil (n : Nat) : natDigits n ≠ [] := by
+  rw [natDigits]; split <;> simp
+
+theorem natDigits_fold (n : Nat) : (natDigits n).foldl (fun a d => 10 * a + d) 0 = n := by
+  fun_induction natDigits n with
+  | case1 n h => simp
+  | case2 n h ih => rw [List.foldl_append, ih]; simp; omega
+
+theorem decode_map (l : List Nat) (h : ∀ d ∈ l, d < 10) (a : Nat) :
+    (l.map superDigit).foldl (fun a c => 10 * a + unsuperDigit c) a = l.foldl (fun a d => 10 * a + d) a := by
+  induction l generalizing a with
+  | nil => rfl
+  | cons d l ih =>
+    simp only [List.map_cons, List.foldl_cons]
+    rw [(superDigit_ok d (h d (by simp))).2.1]
+    exact ih (fun x hx => h x (by simp [hx])) _
+
+theorem decode_superscript (n : Nat) : decodeSuper (superscript n) = n := by
+  unfold decodeSuper superscript
+  rw [decode_map _ (natDigits_lt n), natDigits_fold]
+
+theorem superscript_all (n : Nat) : ∀ c ∈ superscript n, isSuper c = true := by
+  intro c hc
+  simp [superscript] at hc
+  obtain ⟨d, hd, rfl⟩ := hc
+  exact (superDigit_ok d (natDigits_lt n d hd)).1
+
+theorem superscript_noOplus (n : Nat) : '⊕' ∉ superscript n := by
+  intro hc
+  simp [superscript] at hc
+  obtain ⟨d, hd, he⟩ := hc
+  exact (superDigit_ok d (natDigits_lt n d hd)).2.2 he
+
+theorem superscript_ne_nil (n : Nat) : superscript n ≠ [] := by
+  simp [superscript, natDigits_ne_nil]
+
+theorem superscript_isEmpty (n : Nat) : (superscript n).isEmpty = false := by
+  have hne := superscript_ne_nil n
+  cases hsup : superscript n with
+  | nil => exact absurd hsup hne
+  | cons a b => rfl
+
+theorem breakOplus_none (p : List Char) (hp : '⊕' ∉ p) : breakOplus p = (p, none) := by
+  induction p with
+  | nil => rfl
+  | cons c p ih =>
+    have hp' : '⊕' ∉ p := fun h => hp (by simp [h])
+    have hne : ¬ (c = ' ' ∧ p.take 2 = ['⊕', ' ']) := by
+      intro ⟨_, h2⟩
+      cases p with
+      | nil => simp at h2
+      | cons d p => cases p <;> simp at h2 <;> (apply hp; simp [h2.1])
+    simp [breakOplus, hne, ih hp']
+
+theorem breakOplus_append (p q : List Char) (hp : '⊕' ∉ p) : breakOplus (p ++ oplus ++ q) = (p, some q) := by
+  induction p with
+  | nil => simp [breakOplus, oplus]
+  | cons c p ih =>
+    have hp' : '⊕' ∉ p := fun h => hp (by simp [h])
+    have hne : ¬ (c = ' ' ∧ (p ++ oplus ++ q).take 2 = ['⊕', ' ']) := by
+      intro ⟨_, h2⟩
+      cases p with
+      | nil => simp [oplus] at h2
+      | cons d p =>
+        have : d = '⊕' := by
+          cases p <;> simp [oplus] at h2 <;> first | exact h2.1 | exact h2
+        apply hp; simp [this]
+    have e : c :: p ++ oplus ++ q = c :: (p ++ oplus ++ q) := by simp
+    rw [e]
+    simp only [breakOplus, hne, if_false, ih hp']
+
+theorem joinWith_length (ps : List (List Char)) : ps.length ≤ (joinWith oplus ps).length + 1 := by
+  induction ps with
+  | nil => simp
+  | cons p ps ih =>
+    cases ps with
+    | nil => simp [joinWith]
+    | cons q rest => simp [joinWith, oplus] at ih ⊢; omega
+
+theorem splitOplus_join (ps : List (List Char)) (hne : ps ≠ []) (h : ∀ p ∈ ps, '⊕' ∉ p) (fuel : Nat)
+    (hf : ps.length ≤ fuel + 1) : splitOplus fuel (joinWith oplus ps) = ps := by
+  induction ps generalizing fuel with
+  | nil => exact absurd rfl hne
+  | cons p ps ih =>
+    cases ps with
+    | nil =>
+      cases fuel with
+      | zero => simp [splitOplus, joinWith]
+      | succ n => simp [splitOplus, joinWith, breakOplus_none p (h p (by simp))]
+    | cons q rest =>
+      cases fuel with
+      | zero => simp at hf
+      | succ n =>
+        have hp := h p (by simp)
+        simp only [joinWith, splitOplus, breakOplus_append p _ hp]
+        rw [ih (by simp) (fun x hx => h x (by simp [hx])) n (by simp at hf ⊢; omega)]
+
+theorem stripPrefix_append (p r : List Char) : stripPrefix p (p ++ r) = some r := by
+  induction p with
+  | nil => cases r <;> rfl
+  | cons c p ih => simp [stripPrefix, ih]
+
+theorem takeWhile_append_cons (p : Char → Bool) (l1 l2 : List Char) (a : Char) (h1 : ∀ x ∈ l1, p x = true)
+    (ha : p a = false) : (l1 ++ a :: l2).takeWhile p = l1 ∧ (l1 ++ a :: l2).dropWhile p = a :: l2 := by
+  induction l1 with
+  | nil => simp [ha]
+  | cons x l ih =>
+    have hx := h1 x (by simp)
+    have := ih (fun y hy => h1 y (by simp [hy]))
+    simp [hx, this]
+
+theorem readTor_torPiece (sym t : List Char) (k : Nat) (hk : 1 ≤ k) : readTor sym (torPiece sym t k) = some (t, k) := by
+  have key : ∀ sup : List Char, (∀ c ∈ sup, isSuper c = true) →
+      readTor sym (['('] ++ sym ++ ['/'] ++ t ++ [')'] ++ sup) = some (t, if sup.isEmpty then 1 else decodeSuper sup) := by
+    intro sup hs
+    have e : ['('] ++ sym ++ ['/'] ++ t ++ [')'] ++ sup = ('(' :: sym ++ ['/']) ++ (t ++ [')'] ++ sup) := by simp
+    unfold readTor
+    rw [e, stripPrefix_append]
+    have er : (t ++ [')'] ++ sup).reverse = sup.reverse ++ ')' :: t.reverse := by simp
+    have hs' : ∀ x ∈ sup.reverse, isSuper x = true := fun x hx => hs x (by simpa using hx)
+    have := takeWhile_append_cons isSuper sup.reverse t.reverse ')' hs' (by decide)
+    simp only [er, this.1, this.2, List.reverse_reverse]
+  unfold torPiece
+  split
+  · rename_i h
+    have := key (superscript k) (superscript_all k)
+    rw [this]
+    rw [superscript_isEmpty k]
+    simp [decode_superscript]
+  · rename_i h
+    have := key [] (by simp)
+    simp only [List.append_nil] at this
+    rw [this]
+    have : k = 1 := by omega
+    simp [this]
+
+theorem readFree_sym (sym : List Char) : readFree sym sym = some 1 := by
+  have := stripPrefix_append sym []
+  simp only [List.append_nil] at this
+  simp [readFree, this]
+
+theorem readFree_super (sym : List Char) (n : Nat) : readFree sym (sym ++ superscript n) = some n := by
+  unfold readFree
+  rw [stripPrefix_append]
+  have h1 : (superscript n).all isSuper = true := by
+    rw [List.all_eq_true]; exact superscript_all n
+  simp [h1, superscript_isEmpty n, decode_superscript]
+
+theorem runs_spec (l : List (List Char)) : ∀ e ∈ runs l, 1 ≤ e.2 ∧ e.1 ∈ l := by
+  induction l with
+  | nil => simp [runs]
+  | cons t ts ih =>
+    intro e he
+    unfold runs at he
+    cases hr : runs ts with
+    | nil => simp [hr] at he; subst he; simp
+    | cons uk rest =>
+      obtain ⟨u, k⟩ := uk
+      simp only [hr] at he
+      rw [hr] at ih
+      split at he
+      · rename_i htu
+        simp at he
+        rcases he with he | he
+        · subst he; simp [htu]
+        · have := ih e (by simp [he]); exact ⟨this.1, by simp [this.2]⟩
+      · simp at he
+        rcases he with he | he | he
+        · subst he; simp
+        · subst he; have := ih (u, k) (by simp); exact ⟨this.1, by simp [this.2]⟩
+        · have := ih e (by simp [he]); exact ⟨this.1, by simp [this.2]⟩
+
+def expandRuns : List (List Char × Nat) → List (List Char)
+  | [] => []
+  | (t, k) :: rest => List.replicate k t ++ expandRuns rest
+
+theorem expand_runs (l : List (List Char)) : expandRuns (runs l) = l := by
+  induction l with
+  | nil => rfl
+  | cons t ts ih =>
+    unfold runs
+    cases hr : runs ts with
+    | nil =>
+      rw [hr] at ih
+      simp [expandRuns] at ih ⊢
+      exact ih
+    | cons uk rest =>
+      obtain ⟨u, k⟩ := uk
+      rw [hr] at ih
+      simp only
+      split
+      · rename_i htu
+        subst htu
+        simp [expandRuns, List.replicate_succ] at ih ⊢
+        exact ih
+      · simp [expandRuns] at ih ⊢
+        exact ih
+
+theorem runs_injective (l1 l2 : List (List Char)) (h : runs l1 = runs l2) : l1 = l2 := by
+  rw [← expand_runs l1, ← expand_runs l2, h]
+
+theorem mapM_map_some {α β : Type} (f : α → β) (g : β → Option α) (l : List α) (h : ∀ x ∈ l, g (f x) = some x) :
+    (l.map f).mapM g = some l := by
+  induction l with
+  | nil => rfl
+  | cons x l ih =>
+    simp [List.mapM_cons, h x (by simp), ih (fun y hy => h y (by simp [hy]))]
+
+theorem torPiece_noOplus (sym t : List Char) (k : Nat) (hs : '⊕' ∉ sym) (ht : '⊕' ∉ t) : '⊕' ∉ torPiece sym t k := by
+  have := superscript_noOplus k
+  unfold torPiece
+  split <;> simp [hs, ht, this]
+
+theorem torPiece_paren (sym t : List Char) (k : Nat) : ∃ r, torPiece sym t k = '(' :: r := by
+  unfold torPiece; split <;> simp
+
+theorem joinWith_head (c : Char) (r : List Char) (ps : List (List Char)) :
+    ∃ r', joinWith oplus ((c :: r) :: ps) = c :: r' := by
+  cases ps <;> simp [joinWith]
+
+theorem readCell_of_pieces (sym p : List Char) (ps : List (List Char)) (h : ∀ x ∈ p :: ps, '⊕' ∉ x)
+    (c : Char) (r : List Char) (hp : p = c :: r) (hc0 : c ≠ '0') :
+    readCell sym (joinWith oplus (p :: ps)) =
+      if startsParen p then
+        match (p :: ps).mapM (readTor sym) with
+        | some ts => some (0, ts)
+        | none => none
+      else
+        match readFree sym p, ps.mapM (readTor sym) with
+        | some r, some ts => some (r, ts)
+        | _, _ => none := by
+  have hs0 : joinWith oplus (p :: ps) ≠ ['0'] := by
+    obtain ⟨r', hr'⟩ := joinWith_head c r ps
+    rw [hp, hr']
+    intro he
+    injection he with he _
+    exact hc0 he
+  have hsplit := splitOplus_join (p :: ps) (by simp) h (joinWith oplus (p :: ps)).length (joinWith_length _)
+  unfold readCell
+  rw [if_neg hs0, hsplit]
+  rfl
+
+theorem readCell_rmodStr (sym : List Char) (rank : Nat) (tors : List (List Char))
+    (hs : SymOK sym) (ht : ∀ t ∈ tors, TorOK t) :
+    readCell sym (rmodStr sym rank tors) = some (rank, runs tors) := by
+  obtain ⟨⟨c, r, hsym, hc1, hc0⟩, hso⟩ := hs
+  have htp : ∀ e ∈ runs tors, readTor sym ((fun (x : List Char × Nat) => torPiece sym x.1 x.2) e) = some e := by
+    intro e he
+    exact readTor_torPiece sym e.1 e.2 (runs_spec tors e he).1
+  have hmap := mapM_map_some (fun (x : List Char × Nat) => torPiece sym x.1 x.2) (readTor sym) (runs tors) htp
+  have hno : ∀ p ∈ (runs tors).map (fun (x : List Char × Nat) => torPiece sym x.1 x.2), '⊕' ∉ p := by
+    intro p hp
+    simp only [List.mem_map] at hp
+    obtain ⟨e, he, rfl⟩ := hp
+    exact torPiece_noOplus sym e.1 e.2 hso (ht e.1 (runs_spec tors e he).2)
+  have hfun : (fun (x : List Char × Nat) => match x with | (t, k) => torPiece sym t k) =
+      (fun (x : List Char × Nat) => torPiece sym x.1 x.2) := by
+    funext x; obtain ⟨t, k⟩ := x; rfl
+  unfold rmodStr
+  rw [hfun]
+  split
+  · rename_i h
+    obtain ⟨h1, h2⟩ := h
+    subst h1 h2
+    simp [readCell, runs]
+  · rename_i hnz
+    by_cases hr0 : rank = 0
+    · -- only torsion pieces
+      subst hr0
+      have htn : tors ≠ [] := fun h => hnz ⟨rfl, h⟩
+      cases hrt : runs tors with
+      | nil =>
+        have := expand_runs tors
+        rw [hrt] at this
+        exact absurd this.symm htn
+      | cons e es =>
+        rw [hrt] at hmap hno
+        obtain ⟨r', hr'⟩ := torPiece_paren sym e.1 e.2
+        have hfp0 : freePiece sym 0 = [] := by simp [freePiece]
+        rw [hfp0]
+        simp only [List.map_cons, List.nil_append] at hmap hno ⊢
+        rw [readCell_of_pieces sym _ _ hno '(' r' hr' (by decide)]
+        have : startsParen (torPiece sym e.1 e.2) = true := by rw [hr']; rfl
+        rw [if_pos this, hmap]
+    · -- a free piece first
+      have hfp : ∃ fp, freePiece sym rank = [fp] ∧ readFree sym fp = some rank ∧ (∃ r2, fp = c :: r2) ∧ '⊕' ∉ fp := by
+        unfold freePiece
+        by_cases h1 : rank > 1
+        · refine ⟨sym ++ superscript rank, by simp [h1], readFree_super sym rank, ⟨r ++ superscript rank, by simp [hsym]⟩, ?_⟩
+          have := superscript_noOplus rank
+          simp [hso, this]
+        · have : rank = 1 := by omega
+          subst this
+          exact ⟨sym, by simp, readFree_sym sym, ⟨r, hsym⟩, hso⟩
+      obtain ⟨fp, hfp1, hfp2, ⟨r2, hfp3⟩, hfp4⟩ := hfp
+      rw [hfp1]
+      simp only [List.cons_append, List.nil_append]
+      have hall : ∀ x ∈ fp :: (runs tors).map (fun (x : List Char × Nat) => torPiece sym x.1 x.2), '⊕' ∉ x := by
+        intro x hx
+        simp only [List.mem_cons] at hx
+        rcases hx with hx | hx
+        · rw [hx]; exact hfp4
+        · exact hno x hx
+      rw [readCell_of_pieces sym _ _ hall c r2 hfp3 hc0]
+      have : startsParen fp = false := by
+        rw [hfp3]
+        unfold startsParen
+        split
+        · rename_i heq; injection heq with h1 _; exact absurd h1 hc1
+        · rfl
+      rw [this]
+      simp only [Bool.false_eq_true, if_false, hfp2, hmap]
+
 end Yuiv.C20
